@@ -642,6 +642,14 @@ class FnEmit:
         for bn, lines in f.blocks.items():
             blocks[bn] = [s.parse_inst(l) for l in lines]
         s.blocks = blocks
+        # provenance: locals that are an i64* view of pointer-typed memory (bitcast T** -> i64*), as libstdc++'s atomic<T*> code makes them
+        s.p64 = set()
+        for bn, insts in blocks.items():
+            for ins in insts:
+                if ins['op'] == 'bitcast' and ins['dst'] is not None:
+                    ft = ins['x'].ty; tt = ins['ty']
+                    if ft.k == 'ptr' and ft.to.k == 'ptr' and tt.k == 'ptr' and tt.to.k == 'int' and tt.to.bits == 64:
+                        s.p64.add(ins['dst'])
         # phi handling: collect per (pred -> [(dst, val)])
         s.phis = collections.defaultdict(list)
         for bn, insts in blocks.items():
@@ -759,7 +767,15 @@ class FnEmit:
         lines.append('}')
         return (f.name, '\n'.join(lines))
 
-    def asfx(s, t):
+    def is_p64(s, v):
+        if v.k == 'local': return v.name in s.p64
+        if v.k == 'cast' and v.op == 'bitcast':
+            ft = v.x.ty; tt = v.ty
+            return ft.k == 'ptr' and ft.to.k == 'ptr' and tt.k == 'ptr' and tt.to.k == 'int' and tt.to.bits == 64
+        return False
+
+    def asfx(s, t, ptr=None):
+        if ptr is not None and t.k == 'int' and t.bits == 64 and s.is_p64(ptr): return 'p64'
         if t.k == 'ptr': return 'ptr'
         if t.k == 'int' and t.bits in (8, 16, 32, 64): return 'i%d' % t.bits
         raise Unsupported('atomic on type ' + tstr(t))
@@ -807,6 +823,21 @@ class FnEmit:
     def layout(s, order, blocks):
         """block order in which every natural loop is contiguous and starts with its header (all control transfers are
         explicit gotos, so the order of blocks carries no meaning)"""
+        # reverse post-order first: CBMC takes EVERY backward goto for a loop back-edge, so only real back edges may jump backwards
+        idx0 = {b: i for i, b in enumerate(order)}
+        succ0 = {b: [x for x in s.succs(blocks[b]) if x in idx0] for b in order}
+        seen = set(); post = []
+        stack = [(order[0], iter(sorted(succ0[order[0]], key=lambda x: -idx0[x])))]
+        seen.add(order[0])
+        while stack:
+            b, it = stack[-1]
+            nxt = next(it, None)
+            if nxt is None:
+                post.append(b); stack.pop()
+            elif nxt not in seen:
+                seen.add(nxt); stack.append((nxt, iter(sorted(succ0[nxt], key=lambda x: -idx0[x]))))
+        rpo = list(reversed(post)) + [b for b in order if b not in seen]     # unreachable blocks keep their place at the end
+        order = rpo
         loops = s.natural_loops(order, blocks)
         if not loops: return order
         def lay(seq, exclude_header=None):
@@ -1037,18 +1068,22 @@ class FnEmit:
             ptr = ins['ptr']
             if ins['atomic']:
                 s.asite('load', ins['ord'])
-                setd(ins['ty'], '(%s)CV_ATOMIC_LOAD_%s(%s, %d)' % (em.ctype(ins['ty']), s.asfx(ins['ty']), s.val(ptr), ORD[ins['ord']]))
+                setd(ins['ty'], '(%s)CV_ATOMIC_LOAD_%s(%s, %d)' % (em.ctype(ins['ty']), s.asfx(ins['ty'], ptr), s.val(ptr), ORD[ins['ord']]))
             elif ptr.k == 'local' and ptr.name in s.promoted:
                 setd(ins['ty'], s.lname(ptr.name))
+            elif s.is_p64(ptr) and ins['ty'].k == 'int' and ins['ty'].bits == 64:
+                setd(ins['ty'], '(cv_i64)*(void **)%s /* pointer-typed memory read as i64 */' % s.val(ptr))
             else:
                 setd(ins['ty'], '*%s' % s.val(ptr))
         elif op == 'store':
             ptr = ins['ptr']
             if ins['atomic']:
                 s.asite('store', ins['ord'])
-                B('CV_ATOMIC_STORE_%s(%s, %s, %d);' % (s.asfx(ins['val'].ty), s.val(ptr), s.val(ins['val']), ORD[ins['ord']]))
+                B('CV_ATOMIC_STORE_%s(%s, %s, %d);' % (s.asfx(ins['val'].ty, ptr), s.val(ptr), s.val(ins['val']), ORD[ins['ord']]))
             elif ptr.k == 'local' and ptr.name in s.promoted:
                 B('%s = %s;' % (s.lname(ptr.name), s.val(ins['val'])))
+            elif s.is_p64(ptr) and ins['val'].ty.k == 'int' and ins['val'].ty.bits == 64:
+                B('*(void **)%s = (void *)%s; /* i64 written to pointer-typed memory */' % (s.val(ptr), s.val(ins['val'])))
             else:
                 B('*%s = %s;' % (s.val(ptr), s.val(ins['val'])))
         elif op == 'getelementptr':
@@ -1183,10 +1218,10 @@ class FnEmit:
             s.declare(dst, rty)
             s.asite('cmpxchg' + ('_weak' if ins['weak'] else ''), ins['so'] + '/' + ins['fo'])
             B('{ %s = %s; %s.f1 = CV_CMPXCHG_%s(%s, &%s, %s, %d, %d, %d); %s.f0 = %s; }' % (
-                em.ctype(ins['ty'], '__exp'), s.val(ins['cmp']), s.lname(dst), s.asfx(ins['ty']), s.val(ins['ptr']), '__exp', s.val(ins['new']), 1 if ins['weak'] else 0, ORD[ins['so']], ORD[ins['fo']], s.lname(dst), '__exp'))
+                em.ctype(ins['ty'], '__exp'), s.val(ins['cmp']), s.lname(dst), s.asfx(ins['ty'], ins['ptr']), s.val(ins['ptr']), '__exp', s.val(ins['new']), 1 if ins['weak'] else 0, ORD[ins['so']], ORD[ins['fo']], s.lname(dst), '__exp'))
         elif op == 'atomicrmw':
             s.asite('rmw_' + ins['rmw'], ins['ord'])
-            setd(ins['ty'], '(%s)CV_ATOMIC_RMW_%s_%s(%s, %s, %d)' % (em.ctype(ins['ty']), ins['rmw'].upper(), s.asfx(ins['ty']), s.val(ins['ptr']), s.val(ins['val']), ORD[ins['ord']]))
+            setd(ins['ty'], '(%s)CV_ATOMIC_RMW_%s_%s(%s, %s, %d)' % (em.ctype(ins['ty']), ins['rmw'].upper(), s.asfx(ins['ty'], ins['ptr']), s.val(ins['ptr']), s.val(ins['val']), ORD[ins['ord']]))
         elif op == 'fence':
             s.asite('fence', ins['ord'])
             B('CV_FENCE(%d);' % ORD[ins['ord']])
@@ -1361,7 +1396,13 @@ def translate(ll_path, roots_rx, boundary_rx, out_prefix, names=None, no_names=F
         decl.append('#define CV_HAS_%s 1' % al)
     for al, g in (gnames or {}).items():
         decl.append('#define %s (&G_%s)' % (al, san(g)))
-    body = []
+    body = ['''/* 64-bit atomics on pointer-typed memory (std::atomic<T*>): a library may supply native versions by defining CV_P64_*; default = the i64 family */
+#ifndef CV_P64_LOAD
+#define CV_P64_LOAD(p, o) cv_atomic_load_i64((cv_i64 *)(p), o)
+#define CV_P64_STORE(p, v, o) cv_atomic_store_i64((cv_i64 *)(p), v, o)
+#define CV_P64_CMPXCHG(p, e, d, w, so, fo) cv_cmpxchg_i64((cv_i64 *)(p), e, d, w, so, fo)
+#define CV_P64_XCHG(p, v, o) cv_atomic_xchg_i64((cv_i64 *)(p), v, o)
+#endif''']
     inv_alias = {san(v): k for k, v in alias.items()}
     for ln in em.loop_macros:
         mo = re.fullmatch(r'CV_LOOP_(.*)_(\d+)', ln)
